@@ -263,10 +263,19 @@ class xfunc_count(xfunc):
                     raise ValueError(
                         "Cannot determine counts with no dimensions, weights, or N."
                     )
-                counts[:] = self.weights.sum()
-                valid_counts[:] = numpy.count_nonzero(self.validity, axis=0)
-                if not self.ignore_missing:
-                    missing_counts[:] = numpy.count_nonzero(~self.validity, axis=0)
+                if self.weights.shape:
+                    counts[:] = self.weights.sum()
+                    valid_counts[:] = numpy.count_nonzero(self.validity, axis=0)
+                    if not self.ignore_missing:
+                        missing_counts[:] = numpy.count_nonzero(
+                            ~self.validity, axis=0
+                        )
+                else:
+                    # A scalar weight applies to each of the N rows.
+                    counts[:] = self.N * self.weights
+                    valid_counts[:] = self.N * self.validity
+                    if not self.ignore_missing:
+                        missing_counts[:] = self.N * ~self.validity
             else:
                 size = counts.shape[0]
                 if self.weights.shape:
